@@ -221,11 +221,12 @@ func coqArgs() []string {
 }
 
 // modelPass1 runs the model on chunks (a single Coq list literal of tens of thousands of trees overflows coqc's parser).
-func modelPass1(trees []string, pairs [][2]string, outDir string) ([]string, []bool, error) {
+func modelPass1(trees []string, pairs [][2]string, outDir string) ([]string, []bool, []bool, error) {
 	const chunk = 2500
 	type res struct {
 		r   []string
 		c   []bool
+		f   []bool
 		err error
 	}
 	nChunks := (len(trees) + chunk - 1) / chunk
@@ -253,8 +254,8 @@ func modelPass1(trees []string, pairs [][2]string, outDir string) ([]string, []b
 			sem <- struct{}{}
 			tl, th := cut(len(trees), k)
 			pl, ph := cut(len(pairs), k)
-			r, c, err := modelPass1Chunk(trees[tl:th], pairs[pl:ph], outDir, k)
-			out[k] = res{r, c, err}
+			r, c, f, err := modelPass1Chunk(trees[tl:th], pairs[pl:ph], outDir, k)
+			out[k] = res{r, c, f, err}
 			<-sem
 			done <- k
 		}(k)
@@ -263,25 +264,27 @@ func modelPass1(trees []string, pairs [][2]string, outDir string) ([]string, []b
 		<-done
 	}
 	var rs []string
-	var cs []bool
+	var cs, fs []bool
 	for k := 0; k < nChunks; k++ {
 		if out[k].err != nil {
-			return nil, nil, out[k].err
+			return nil, nil, nil, out[k].err
 		}
 		rs = append(rs, out[k].r...)
+		fs = append(fs, out[k].f...)
 	}
 	for k := 0; k < nChunks; k++ {
 		cs = append(cs, out[k].c...)
 	}
-	return rs, cs, nil
+	return rs, cs, fs, nil
 }
 
-func modelPass1Chunk(trees []string, pairs [][2]string, outDir string, k int) ([]string, []bool, error) {
+func modelPass1Chunk(trees []string, pairs [][2]string, outDir string, k int) ([]string, []bool, []bool, error) {
 	var b strings.Builder
-	b.WriteString("From GC Require Import Base Model_Regex Model_RegexSimplify Proofs_RegexSimplify.\n")
+	b.WriteString("From GC Require Import Base Model_Regex Model_RegexSimplify Proofs_RegexSimplify Proofs_RegexWalk.\n")
 	b.WriteString("Definition trees : list sx := [\n")
 	b.WriteString(strings.Join(trees, ";\n"))
 	b.WriteString("\n].\nDefinition R := Eval vm_compute in map (fun t => str_bytes (simplify1 t)) trees.\nPrint R.\n")
+	b.WriteString("Definition FRAG := Eval vm_compute in map (fun t => if in_fragment t && avoids_defects t then 1%N else 0%N) trees.\nPrint FRAG.\n")
 	b.WriteString("Definition pairs : list (sx * sx) := [\n")
 	for i, pr := range pairs {
 		if i > 0 {
@@ -295,12 +298,12 @@ func modelPass1Chunk(trees []string, pairs [][2]string, outDir string, k int) ([
 	args := append([]string{"600", "coqc"}, coqArgs()...)
 	out, code, err := common.Run(700*time.Second, outDir, os.Environ(), "timeout", append(args, path)...)
 	if err != nil || code != 0 {
-		return nil, nil, fmt.Errorf("coqc round 1 failed (%v, rc=%d): %s", err, code, tailStr(out, 800))
+		return nil, nil, nil, fmt.Errorf("coqc round 1 failed (%v, rc=%d): %s", err, code, tailStr(out, 800))
 	}
 	i := strings.Index(out, "R =")
 	ci := strings.Index(out, "CERT =")
 	if i < 0 || ci < i {
-		return nil, nil, fmt.Errorf("round 1: no result: %s", tailStr(out, 400))
+		return nil, nil, nil, fmt.Errorf("round 1: no result: %s", tailStr(out, 400))
 	}
 	var cert []bool
 	for _, ch := range out[ci+6:] {
@@ -312,9 +315,25 @@ func modelPass1Chunk(trees []string, pairs [][2]string, outDir string, k int) ([
 		}
 	}
 	if len(cert) != len(pairs) {
-		return nil, nil, fmt.Errorf("round 1: %d certificates for %d pairs", len(cert), len(pairs))
+		return nil, nil, nil, fmt.Errorf("round 1: %d certificates for %d pairs", len(cert), len(pairs))
 	}
-	s := out[i+3 : ci]
+	fi := strings.Index(out, "FRAG =")
+	if fi < i || fi > ci {
+		return nil, nil, nil, fmt.Errorf("round 1: no FRAG result: %s", tailStr(out, 400))
+	}
+	var frag []bool
+	for _, ch := range out[fi+6 : ci] {
+		if ch == '0' || ch == '1' {
+			frag = append(frag, ch == '1')
+		}
+		if ch == ':' {
+			break
+		}
+	}
+	if len(frag) != len(trees) {
+		return nil, nil, nil, fmt.Errorf("round 1: %d fragment flags for %d trees", len(frag), len(trees))
+	}
+	s := out[i+3 : fi]
 	if j := strings.LastIndex(s, ":"); j >= 0 {
 		s = s[:j]
 	}
@@ -361,9 +380,9 @@ func modelPass1Chunk(trees []string, pairs [][2]string, outDir string, k int) ([
 		}
 	}
 	if len(res) != len(trees) {
-		return nil, nil, fmt.Errorf("round 1: %d results for %d trees", len(res), len(trees))
+		return nil, nil, nil, fmt.Errorf("round 1: %d results for %d trees", len(res), len(trees))
 	}
-	return res, cert, nil
+	return res, cert, frag, nil
 }
 
 func tailStr(s string, n int) string {
@@ -600,7 +619,6 @@ func compareRegexps(before, after string, maxLen int, budget int, rng interface{
 
 func (r *runner) shrink(pat string, d *diff, maxLen int, rng interface{ Intn(int) int }) (string, string, *diff) {
 	cur, curRw, curD := pat, r.one(pat), d
-	curClass := classify(cur, curRw, curD)
 	still := func(p string) (string, *diff) {
 		if !utf8.ValidString(p) {
 			return "", nil
@@ -619,12 +637,6 @@ func (r *runner) shrink(pat string, d *diff, maxLen int, rng interface{ Intn(int
 		nd, _ := compareRegexps(p, rw, maxLen, 1500, rng, first)
 		if nd == nil || nd.Kind != curD.Kind {
 			return "", nil
-		}
-		if cl := classify(p, rw, nd); cl != curClass {
-			if curClass != "unclassified" {
-				return "", nil
-			}
-			curClass = cl
 		}
 		return rw, nd
 	}
@@ -859,7 +871,7 @@ func Run(tier string, seed int64, outDir string) *common.Meta {
 			pairIdx = append(pairIdx, i)
 		}
 	}
-	pass1, certs, err := modelPass1(round1, pairs, outDir)
+	pass1, certs, frags, err := modelPass1(round1, pairs, outDir)
 	if err != nil {
 		meta.TieBroken = append(meta.TieBroken, err.Error())
 		return meta
@@ -877,11 +889,24 @@ func Run(tier string, seed int64, outDir string) *common.Meta {
 		}
 	}
 	meta.Distribution["rewrites_certified_equivalent_by_kernel"] = nCert
+	inFrag := make([]bool, len(pats))
+	nFrag, nFragRw := 0, 0
+	for k, i := range round1Idx {
+		inFrag[i] = frags[k]
+		if frags[k] {
+			nFrag++
+			if rewrites[i] != "" {
+				nFragRw++
+			}
+		}
+	}
+	meta.Distribution["patterns_covered_by_fragment_theorem"] = nFrag
+	meta.Distribution["rewrites_covered_by_fragment_theorem_pass1"] = nFragRw
 
 	// 4. simplifier cases
-	hdr := `From GC Require Import Base Model_Regex Model_RegexSimplify Proofs_RegexSimplify.
+	hdr := `From GC Require Import Base Model_Regex Model_RegexSimplify Proofs_RegexSimplify Proofs_RegexWalk.
 Record case := { k_pat : string; k_tree : option sx; k_c1 : string; k_tree2 : option sx; k_obs : option string;
-                 k_tree3 : option sx; k_cert : bool }.
+                 k_tree3 : option sx; k_cert : bool; k_frag : bool }.
 Definition ostr_eqb (a b : option string) : bool :=
   match a, b with Some x, Some y => String.eqb x y | None, None => true | _, _ => false end.
 Definition case_ok (k : case) : bool :=
@@ -890,11 +915,13 @@ Definition case_ok (k : case) : bool :=
   | Some t =>
       String.eqb (print t) (k_pat k)                                   (* the dump is the tree of this text *)
       && String.eqb (simplify1 t) (k_c1 k)                              (* pass 1 as used for k_tree2 *)
-      && String.eqb (pr_list (fst (walk_a t))) (simp_text t)            (* tree version prints the text version *)
-      && Nat.eqb (snd (walk_a t)) (simp_score t)
+      && String.eqb (pr_list (fst (walk_a true t))) (simp_text t)            (* tree version prints the text version *)
+      && Nat.eqb (snd (walk_a true t)) (simp_score t)
       && ostr_eqb (simplify2 (k_pat k) t (fun s => if String.eqb s (k_c1 k) then k_tree2 k else None)) (k_obs k)
       (* the certificate used with C11_same_meaning_sound: pattern tree vs tree of the final rewrite *)
       && Bool.eqb (match k_tree3 k with Some t3 => same_meaning t t3 | None => false end) (k_cert k)
+      (* hypotheses of C11_simplify_sound_partial; where they hold and the certificate can be computed, it agrees *)
+      && Bool.eqb (in_fragment t && avoids_defects t) (k_frag k)
   end.
 Definition cases : list case := [
 `
@@ -927,8 +954,8 @@ Definition cases : list case := [
 		if tree3[i] != "" {
 			t3 = "(Some " + tree3[i] + ")"
 		}
-		bodies[sh] = append(bodies[sh], fmt.Sprintf("  {| k_pat := %s; k_tree := %s; k_c1 := %s; k_tree2 := %s; k_obs := %s; k_tree3 := %s; k_cert := %s |}",
-			coqfmt.Str(p), t, coqfmt.Str(c1[i]), t2, obs, t3, coqfmt.Bool(certified[i])))
+		bodies[sh] = append(bodies[sh], fmt.Sprintf("  {| k_pat := %s; k_tree := %s; k_c1 := %s; k_tree2 := %s; k_obs := %s; k_tree3 := %s; k_cert := %s; k_frag := %s |}",
+			coqfmt.Str(p), t, coqfmt.Str(c1[i]), t2, obs, t3, coqfmt.Bool(certified[i]), coqfmt.Bool(inFrag[i])))
 		idx[sh] = append(idx[sh], fmt.Sprintf("%s: %q => %q", srcOf[i], p, rewrites[i]))
 		if rewrites[i] != "" && i%211 == 0 {
 			meta.AddSample(map[string]interface{}{"pattern": p, "rewrite": rewrites[i], "model_pass1": c1[i], "stream": srcOf[i]})
@@ -1060,6 +1087,7 @@ Definition cases : list case := [
 	failing := 0
 	uncertifiedClean := 0
 	classCount := map[string]int{}
+	coveredRefuted := map[string]int{}
 	shrunkPerClass := map[string]int{}
 	for i, p := range pats {
 		if rewrites[i] == "" {
@@ -1083,6 +1111,11 @@ Definition cases : list case := [
 			class = "unclassified:" + sp + "=>" + srw
 		}
 		classCount[class]++
+		if inFrag[i] {
+			// pass 1 is proved sound at tree level for this pattern: the damage must come from the text
+			// (re-lexing) or from the second pass
+			coveredRefuted[class]++
+		}
 		if shrunkPerClass[class] < 5 {
 			shrunkPerClass[class]++
 			what := fmt.Sprintf("regexpSimplify rewrites `%s` as `%s`, which is not the same regular expression: %s", sp, srw, describe(sd))
@@ -1096,6 +1129,7 @@ Definition cases : list case := [
 	meta.Distribution["oracle_failing_rewrites"] = failing
 	meta.Distribution["rewrites_neither_certified_nor_refuted"] = uncertifiedClean
 	meta.Distribution["oracle_defect_classes"] = classCount
+	meta.Distribution["oracle_refuted_although_pass1_tree_proved_sound"] = coveredRefuted
 	meta.Evaluations = len(pats) + semRuns + subjectsTried
 	meta.Distinct = nRewrites
 	meta.Rule = "patterns: the repo's regexpSimplify testdata strings and the defect corpus first, then grammar-based (small alphabet), metacharacter-heavy, class-heavy and mutation streams, all valid UTF-8 and accepted by regexp.Compile, <= 60 bytes plus a few longer ones; each is parsed by syntax.Parser{NoLiterals:true} (tree dumped as a Coq term), run through linter.NewChecker(regexpSimplify) on a type-checked generated file, and compared in Coq with the model's two-pass result (the parser supplies the tree of the model's pass-1 text); matcher model vs regexp.FindStringSubmatchIndex on sampled (pattern, subject) pairs; oracle: both sides of every proposed rewrite compiled by regexp and compared on NumSubexp, SubexpNames and FindStringSubmatchIndex over all subjects up to length 4 (5 thorough) over the pattern's alphabet + a foreign rune, \\n, \\v. distinct_nontrivial = number of distinct patterns for which the checker proposed a rewrite"
